@@ -36,7 +36,7 @@ func TestVerifC15(t *testing.T) {
 			}
 			return 8
 		},
-		Floors: map[string]int64{"histories": 250, "operations": 5000, "overlapping_operation_pairs": 5000},
+		Floors: map[string]int64{"histories": 200, "big_read_histories": 8, "operations": 5000, "overlapping_operation_pairs": 5000},
 		Run:    c15Run,
 	})
 }
@@ -87,7 +87,116 @@ var c15Model = porcupine.Model{
 	},
 }
 
+// c15BigReads: single-packet operations of (nearly) the maximum size. Every write replaces the
+// whole range a read covers with one fill value, atomically in the store, so a read that is one
+// atomic step returns a uniform buffer; and every single-packet read must reach the store as exactly
+// one ReadAt (a read silently completed by a second request is not one atomic step).
+func c15BigReads(u *vfUnit) {
+	r := u.Rng
+	const span = 32768
+	store := vfNewStore()
+	alloc := u.Index%16 >= 8
+	hooks := vfInstallHooks(vfHookCfg{Seed: r.Uint64(), NoLog: true, MaxSleepUs: 80, DelayPct: map[int]int{vhRsWorker: 30, vhPmReady: 20}})
+	defer hooks.Uninstall()
+	sess, _, err := vfConnectProxied(vfSrvCfg{Kind: vfRS, Alloc: alloc, H: store.Handlers(vfHandlerOpt{OpenFile: true})}, 2+r.Intn(4), r.Fork())
+	if err != nil {
+		u.Inconclusive("connect: %v", err)
+		return
+	}
+	for round := 0; round < 4; round++ {
+		p := fmt.Sprintf("/big%d", round)
+		initial := make([]byte, span+100)
+		for i := range initial {
+			initial[i] = 1
+		}
+		store.Put(p, initial)
+		var files []*File
+		for k := 0; k < 2; k++ {
+			f, err := sess.C.OpenFile(p, os.O_RDWR)
+			if err != nil {
+				u.Violation("open-failed", err.Error(), nil)
+				return
+			}
+			files = append(files, f)
+		}
+		var clientReads, torn atomic.Int64
+		var firstTorn atomic.Value
+		var wg sync.WaitGroup
+		for g := 0; g < 5; g++ {
+			wg.Add(1)
+			go func(g int) {
+				defer wg.Done()
+				gr := vfNewRand(uint64(u.Index)*31 + uint64(round)*7 + uint64(g))
+				for it := 0; it < 12; it++ {
+					f := files[gr.Intn(2)]
+					if g < 2 {
+						b := make([]byte, span)
+						fill := byte(2 + g*100 + it)
+						for i := range b {
+							b[i] = fill
+						}
+						if n, err := f.WriteAt(b, 0); err != nil || n != span {
+							firstTorn.CompareAndSwap(nil, fmt.Sprintf("WriteAt = (%d, %v)", n, err))
+						}
+					} else {
+						L := vfPick(gr, []int{span - 13, span - 12, span - 8, span - 1, span})
+						b := make([]byte, L)
+						n, err := f.ReadAt(b, 0)
+						clientReads.Add(1)
+						if err != nil || n != L {
+							firstTorn.CompareAndSwap(nil, fmt.Sprintf("ReadAt(%d) = (%d, %v)", L, n, err))
+							continue
+						}
+						for i := 1; i < L; i++ {
+							if b[i] != b[0] {
+								torn.Add(1)
+								firstTorn.CompareAndSwap(nil, fmt.Sprintf("ReadAt(%d bytes at 0) returned fill %d up to byte %d and fill %d from there: it observed two different whole-range writes", L, b[0], i, b[i]))
+								break
+							}
+						}
+					}
+				}
+			}(g)
+		}
+		done := vfGo(func() { wg.Wait() })
+		label := fmt.Sprintf("big-reads/alloc=%v/round=%d", alloc, round)
+		if w, dump := vfAwait(done, 120*time.Second); w != vfDone {
+			if w == vfStuck {
+				u.Violation("history-hangs", label+": operations never return\n"+vfTrim(dump, 2500), nil)
+			} else {
+				u.Inconclusive("%s: wall-clock cap", label)
+			}
+			return
+		}
+		for _, f := range files {
+			f.Close()
+		}
+		u.Eval(label)
+		u.Count("big_read_histories", 1)
+		u.Count("operations", 60)
+		var backing int64
+		for _, o := range store.Objs() {
+			if o.path == p {
+				backing += int64(o.reads.Load())
+			}
+		}
+		if v := firstTorn.Load(); v != nil {
+			u.Violation("not-linearizable:RequestServer:max-size-read", fmt.Sprintf("%s: %s", label, v), map[string]any{"config": label})
+		}
+		if backing != clientReads.Load() {
+			u.Violation("single-packet-read-split:RequestServer", fmt.Sprintf("%s: %d single-packet in-extent ReadAt calls reached the backing store as %d ReadAt calls: a read was completed with a second request and is not one atomic step", label, clientReads.Load(), backing), map[string]any{"config": label})
+		}
+	}
+	if msg := sess.Close(); msg != "" {
+		u.Violation("session-close", msg, nil)
+	}
+}
+
 func c15Run(u *vfUnit) {
+	if u.Index%8 == 7 {
+		c15BigReads(u)
+		return
+	}
 	r := u.Rng
 	kind := vfKind(u.Index % 2)
 	alloc := (u.Index/2)%2 == 1
